@@ -8,14 +8,18 @@ git checkout -q -- . ; git clean -fdq tests src Cargo.toml 2>/dev/null
 log=$O/confirm.log; : > $log
 demo_name=$(ls $O/*.rs 2>/dev/null | head -1 | xargs -n1 basename 2>/dev/null | sed 's/\.rs$//')
 run_demo() { # prints PASS/FAIL
-  if [ -n "$demo_name" ] && grep -q "tests/$demo_name.rs" $O/demo.diff 2>/dev/null; then
+  if [ -n "$demo_name" ] && have_tests_demo; then
     cargo test --offline --features experimental,test-util --test $demo_name >> $log 2>&1 && echo PASS || echo FAIL
   else
     cargo test --workspace --offline >> $log 2>&1 && echo PASS || echo FAIL
   fi
 }
+apply_demo() {
+  if [ -f $O/demo.diff ]; then git apply $O/demo.diff; else cp $O/$demo_name.rs tests/$demo_name.rs; fi
+}
+have_tests_demo() { [ ! -f $O/demo.diff ] || grep -q "tests/$demo_name.rs" $O/demo.diff; }
 # 1. pristine + demo
-git apply $O/demo.diff || { echo "demo.diff does not apply" | tee -a $log; exit 3; }
+apply_demo || { echo "demo does not apply" | tee -a $log; exit 3; }
 r1=$(run_demo)
 git checkout -q -- . ; git clean -fdq tests src 2>/dev/null
 # 2. mutation only: full suite
@@ -25,7 +29,7 @@ passed=$(grep -E "^test result" $O/suite.log | awk '{s+=$4} END{print s}')
 failed=$(grep -E "^test result" $O/suite.log | awk '{s+=$6} END{print s}')
 r2="rc=$rc passed=$passed failed=$failed"
 # 3. mutation + demo
-git apply $O/demo.diff
+apply_demo
 r3=$(run_demo)
 git checkout -q -- . ; git clean -fdq tests src 2>/dev/null
 echo "$ID $M: demo-on-pristine=$r1 suite-with-mutation=[$r2] demo-with-mutation=$r3" | tee -a $log
